@@ -261,19 +261,23 @@ FTruncate(S, key, sz) ==
 Zeroed(d, off, len) == [x \in 1..Len(d) |-> IF x > off /\ x <= off + len THEN 0 ELSE d[x]]
 Fallocate(S, key, mode, off, len) ==
   IF ~HasOf(S, key) THEN Fail(S, {"EBADF"})
-  ELSE LET o == S.of[key]  op == mode \ {"KEEP", "UNSHARE"} IN
-  IF len = 0 THEN Fail(S, {"EINVAL"})                 \* checked before the descriptor's access mode
+  ELSE LET o == S.of[key]  op == mode \ {"KEEP", "UNSHARE"}
+           \* vfs_fallocate: argument and mode-combination checks come before the descriptor's access mode
+           modeErr == IF len = 0 THEN {"EINVAL"}
+                      ELSE IF "UNSHARE" \in mode THEN {"EGEN"}
+                      ELSE IF op = {"PUNCH"} /\ "KEEP" \notin mode THEN {"EOPNOTSUPP", "EINVAL"}
+                      ELSE IF op \in {{}, {"PUNCH"}, {"ZERO"}} THEN {}
+                      ELSE IF op \in {{"COLLAPSE"}, {"INSERT"}} /\ "KEEP" \notin mode THEN {}
+                      ELSE {"EINVAL", "EOPNOTSUPP"} IN
+  IF modeErr # {} THEN Fail(S, ErrSet(modeErr))
   ELSE IF ~Writes(o.acc) THEN Fail(S, {"EBADF"})
   ELSE IF S.ino[o.i].t # "reg" THEN Fail(S, AnyErr)
-  ELSE IF "UNSHARE" \in mode THEN Fail(S, AnyErr)
   ELSE LET d == S.ino[o.i].data
            grown == IF "KEEP" \in mode THEN d ELSE Resize(d, Max(Len(d), off + len)) IN
        IF op = {} THEN Succ([S EXCEPT !.ino[o.i].data = grown], NoRet)
-       ELSE IF op = {"PUNCH"} THEN (IF "KEEP" \notin mode THEN Fail(S, {"EOPNOTSUPP", "EINVAL"})
-                                    ELSE Succ([S EXCEPT !.ino[o.i].data = Zeroed(d, off, len)], NoRet))
+       ELSE IF op = {"PUNCH"} THEN Succ([S EXCEPT !.ino[o.i].data = Zeroed(d, off, len)], NoRet)
        ELSE IF op = {"ZERO"} THEN Succ([S EXCEPT !.ino[o.i].data = Zeroed(grown, off, len)], NoRet)
-       ELSE IF op \in {{"COLLAPSE"}, {"INSERT"}} THEN Fail(S, {"EINVAL", "EOPNOTSUPP"})
-       ELSE Fail(S, {"EINVAL", "EOPNOTSUPP"})
+       ELSE Fail(S, {"EINVAL", "EOPNOTSUPP"})          \* collapse / insert of a range that is not block-aligned
 \* lseek(2): SET / CUR / END (DATA and HOLE are file-system specific and not modelled)
 Lseek(S, key, off, wh) ==
   IF ~HasOf(S, key) THEN Fail(S, {"EBADF"})
